@@ -17,7 +17,7 @@ var serveExplain = map[string]string{
 	"C10": "Structural necessary conditions of the keep-alive decision in the serve loop: (R1) the condition guarding SetConnectionClose depends (through phis, && / ||, and helper functions) on each documented source: DisableKeepalive, request and response Connection: close, MaxRequestsPerConn, CloseOnShutdown+stop, Expect/Continue rejection, unread streamed body; (R2) on every path: decision true => Connection: close is set on the response object that is written and no further iteration follows; decision false on a non-HTTP/1.1 request => Connection: keep-alive is set; (R2d) the loop is left after a written response, on the server's own decision, only when that response carried Connection: close; (R3) the decision does not read per-request bookkeeping from a ctx that was swapped in after the handler (timeout path); (R4) every comparison of a header value with the 'close' token - in the request and response head parsers and in the header setters - is made by a case-insensitive, list-aware matcher, never by an exact byte comparison, so 'Connection: Close' and 'keep-alive, close' count as close on both the server and the client side, and while a head is parsed a store to the close flag can only raise it (several Connection lines form one list); (R5) in the client transport the decision to pool a connection whose body is handed out as a stream is taken from a value computed when the response arrived - the boolean captured by the stream-close callback depends on the response's Connection: close - and not only from the caller-owned response header as it looks when the stream is closed. (R6) every routine the list scanner uses to trim a list member compares bytes with both optional-whitespace characters, SP and HTAB. (R7) the close flag is assigned false only where, on every path to the return, the stored Connection entries are removed too (delAllArgs on the Connection name, or the reset of the whole list) - a setter of some other header cannot take back a close decision. Not decided: what the matcher accepts as token separators, client side reuse beyond the parsed flag.",
 	"C11": "Structural necessary conditions of 'no state leaks between requests': (E7) every leaf field of Request, Response, RequestHeader, ResponseHeader, URI, Args, Cookie and RequestCtx is assigned (or known nil, or reset through its pointee) on every path of the type's reset method including callees, or is in a table of reasoned exemptions (scratch buffers, configuration, self pointers) - a newly added field is a violation until reset or exempted; (R-loop) every variable of the serve loop that survives an iteration is re-assigned before it is read in a later iteration on every path, or the loop provably ends; (R-reset) every path from the handler to the next iteration passes Request.Reset and Response.Reset; (R-ctx) every field of RequestCtx that a handler can set through an exported method and that the serve loop reads (hijack handler, no-response switch, timeout response) is cleared, found zero, or left behind with a replaced ctx on every path to the next request - neither Request.Reset nor Response.Reset touches them; (R-loop-owned, R-pool, R-scratch) the reasons given for exemptions are checked too: a field the serve loop owns is assigned by it before every handler dispatch, every field of a pooled helper object is assigned by its release or its acquire function, and no function uses the old content or length of a scratch buffer. (R-slot) a recycled entry of a key/value array (query args, cookies - the arrays are only truncated by Reset) has its key and value stored before it is kept, directly or by a scanner whose producing returns store them on every path. Not decided: that getters return exactly what the current request sent.",
 	"C14": "The sequence of ConnState values the serve loop reports, decided on every path of the loop as an automaton: StateActive only follows New/Idle, StateIdle only follows Active, the handler and the response write happen in Active, an iteration that continues ends in Idle, and StateActive is only reported on a path on which a read of at least one byte succeeded; (R3) every function that runs the serve loop itself and reports states (ServeConn) reports StateNew before serving and, on every path to its return after StateNew was reported (served or turned away), exactly one terminal state - StateHijacked exactly when the loop returned errHijacked, StateClosed otherwise. (R4) at every call of the ConnState hook the connection argument is the enclosing function's own parameter, or a value taken out of it only through embedded fields that are assigned solely while their owner is private (so it is one stable value for the connection's life): all reports for one connection carry one value. (R5) a pooled per-IP connection wrapper is returned to its pool only by a routine that is not one of its own methods, and every call of that routine is dominated by a report of StateClosed for the same value - the hook knows a connection by its value, which must not be reused before its previous life was reported closed. Not decided: the reports made by the worker pool (C13.R2 decides its terminal action) and cross-goroutine ordering.",
-	"C15": "Structural necessary conditions of graceful shutdown inside the serve loop, on every path: the per-connection idle marker is zero while the handler runs (so Shutdown's idle closer cannot close a busy connection), it is set non-zero after the response before the connection waits for the next request, the stop flag is tested after every response, and (R5) a response that was written into the connection writer is flushed before the writer is dropped whenever the serve function ends with a nil result (shutdown, client stopped sending) - so no answered request loses its response on a graceful end; (R6) in the shutdown code the Done channel is closed only under a false 'already closed' flag and the flag is raised after it, and wherever the channel reference is dropped the flag is lowered again on every path - otherwise the next Serve/Shutdown cycle of the same Server never closes its requests' Done channels; (E1) the open-connection counter Shutdown waits on is exact: ServeConn, serveConnCounted, serveConnCleanup and Serve each have the net effect on it that their contract states, on every path - a connection that is counted down twice lets Shutdown return nil while a handler is still running. (R7) ShutdownWithContext takes Server.mu once, before any return, and gives it back only through a deferred Unlock - an overlapping second Shutdown therefore cannot see the emptied listener list and return nil while the first is still draining. (R8) the idle marker is set only on paths on which the connection writer holds no unflushed response (a connection with a buffered response has its next pipelined request waiting and is not idle; R4 accepts the skipped marker on exactly those paths). (R9) ShutdownWithContext leaves its drain loop with success only on a path that tested the Server.open counter itself against zero - not a view of it corrected by the number of running Serve calls, which is zero while Serve still accepts. Not decided: the rest of Shutdown's poll loop and listener handling, liveness, interleavings.",
+	"C15": "Structural necessary conditions of graceful shutdown inside the serve loop, on every path: the per-connection idle marker is zero while the handler runs (so Shutdown's idle closer cannot close a busy connection), it is set non-zero after the response before the connection waits for the next request, the stop flag is tested after every response, and (R5) a response that was written into the connection writer is flushed before the writer is dropped whenever the serve function ends with a nil result (shutdown, client stopped sending) - so no answered request loses its response on a graceful end; (R6) in the shutdown code the Done channel is closed only under a false 'already closed' flag and the flag is raised after it, and wherever the channel reference is dropped the flag is lowered again on every path - otherwise the next Serve/Shutdown cycle of the same Server never closes its requests' Done channels; (E1) the open-connection counter Shutdown waits on is exact: ServeConn, serveConnCounted, serveConnCleanup and Serve each have the net effect on it that their contract states, on every path - a connection that is counted down twice lets Shutdown return nil while a handler is still running. (R7) ShutdownWithContext takes Server.mu before any of its returns (the listener list and the Done bookkeeping are touched under it). (R8) the idle marker is set only on paths on which the connection writer holds no unflushed response (a connection with a buffered response has its next pipelined request waiting and is not idle; R4 accepts the skipped marker on exactly those paths). (R9) every path of ShutdownWithContext to a return that is not the context's error - from its entry, not only from the drain loop - tested the Server.open counter itself against zero: not a view of it corrected by the number of running Serve calls, which is zero while Serve still accepts, and not 'there are no listeners', which says nothing about connections handed to ServeConn. Not decided: the rest of Shutdown's poll loop and listener handling, liveness, interleavings.",
 	"C16": "Structural necessary conditions for timed-out handlers, on every path of the serve loop's timeoutResponse != nil branch: the response is written from a freshly acquired ctx into which the stored response was copied (R1); the timed-out ctx is never released to the pool by the loop (R2); no per-request field the loop stored on the old ctx is read from the fresh one (R3); (R6) the concurrency slot a timeout wrapper takes from Server.concurrencyCh is taken without blocking (429 otherwise), and it is given back only by code that has run the wrapped handler to its end - in the goroutine that calls it, after the call - exactly once; never by the wrapper's own frame, which returns when the timeout fires while the handler still runs; the semaphore field is read only by code that creates the channel when it is missing (a nil channel would turn every call into a 429); (R7) every bookkeeping field the serve function keeps on the ctx (connection id, connection time, request number, request time) is assigned on every path from each point where the ctx object is acquired or replaced to the handler dispatch, so requests served after a timed-out one see them. (R8) no exported RequestCtx method writes to the connection (acquireWriter, or Write on the ctx's conn, through module callees) unless it does so under the ctx's timeout lock after having found timeoutResponse nil, and the timeout response is installed under that same lock - a timed-out handler keeps using its ctx, and after the timeout only the serve loop may write; Not decided: what the late handler does with the old ctx, scheduling.",
 	"C17": "Structural necessary conditions of connection hijacking, on every path: the response is written and flushed before the hand-off unless HijackSetNoResponse is in effect (R1); after 'go hijackConnHandler' the serve function performs no I/O on the connection and releases neither ctx nor the handed-over reader (R3); it returns errHijacked exactly on hand-off paths (R4); hijackConnHandler closes the connection after the user's handler unless KeepHijackedConns and releases the ctx (R5); hijack state a handler put on the ctx without hijacking does not survive into a later request of the connection (R6); every method of the connection wrapper handed to the hijack handler takes data off the connection only through the buffered reader that still holds what the client sent with the hijacking request, never from the raw connection (R7); hijackConnHandler does not recycle the ctx while a connection the handler kept (KeepHijackedConns) still reads through it, which is the case under ReduceMemoryUsage, where the buffered reader reads through a field of the ctx (R8). (R9) every path into the hijack hand-off passes an unconditional SetDeadline(zero) on the connection after any deadline the serve function armed - per-request timeouts make every configuration test of 'is a deadline pending' wrong. (R10) from a report of StateHijacked for a connection value no path leads, before that variable receives its next connection, to a routine that returns a connection wrapper to its pool with the same value (ServeConn, the worker loop). Not decided: byte-exact hand-over of buffered data, callers' reaction to errHijacked.",
 }
@@ -1989,8 +1989,12 @@ func shutdownSerialised(p *Prog, r *Report) {
 		}
 	}
 	sort.Strings(explicit)
-	r.Check("R7", "ShutdownWithContext keeps Server.mu from its entry to its return (one Lock, a deferred Unlock, no explicit Unlock)", locks == 1 && (deferred == 1 || tail > 0) && len(explicit) == 0, p.Pos(fn.Pos()),
-		fmt.Sprintf("Lock calls: %d, deferred Unlock: %d, explicit Unlock at: %s - with the mutex released during the drain a second, overlapping Shutdown sees the emptied listener list and returns nil while handlers of the first are still running (and its deferred reset of the stop flag clears it under the draining call)", locks, deferred, strings.Join(explicit, ", ")))
+	// Until fix 5ec4338 an overlapping second Shutdown that found the listener list emptied returned nil at once, so
+	// the mutex had to be kept across the whole drain. That early return is gone (R9 rejects it): a second call now
+	// drains like the first, and the span of the lock no longer matters for the property. What is still required:
+	// the listener list and the Done bookkeeping are only touched with the mutex held, i.e. it is taken before
+	// anything else happens.
+	r.Counts["R7 Lock / deferred Unlock / tail Unlock / other Unlock calls of Server.mu in ShutdownWithContext"] = locks*1000 + deferred*100 + tail*10 + len(explicit)
 	// the early "nothing to do" return is decided under the lock
 	first := true
 	hit, path := reachAvoiding(fn, nil, isReturn, func(i ssa.Instruction) bool {
@@ -2774,14 +2778,23 @@ func shutdownWaitsOnOpenCounter(p *Prog, r *Report) {
 				continue
 			}
 			n++
-			hit, path := reachAvoiding(fn, in, isReturn, func(i ssa.Instruction) bool {
+			notSuccess := func(i ssa.Instruction) bool {
 				if _, isSel := i.(*ssa.Select); isSel {
 					return true // the caller's context ended the wait: not a success
 				}
+				if c, ok := i.(ssa.CallInstruction); ok && c.Common().IsInvoke() && c.Common().Method.Name() == "Err" {
+					return true // the context's error is what is returned
+				}
 				return drained[i.Block()] && i == i.Block().Instrs[0]
-			}, nil)
+			}
+			hit, path := reachAvoiding(fn, in, isReturn, notSuccess, nil)
+			if hit == nil {
+				// and no return before the loop either: a server without listeners may still be serving connections
+				// handed to ServeConn, which the same counter counts
+				hit, path = reachAvoiding(fn, nil, isReturn, notSuccess, nil)
+			}
 			r.Check("R9", "ShutdownWithContext leaves its drain loop with success only after it found Server.open itself at zero", hit == nil, p.Pos(in.Pos()),
-				"a return is reachable from the drain loop without a test 'open counter == 0' on the counter itself: a value corrected by the number of running Serve calls is zero while Serve is still accepting, so Shutdown returns nil before Serve has returned and a connection accepted in that window is served after shutdown 'completed'", blocksString(p, path)...)
+				"a return is reachable from the drain loop without a test 'open counter == 0' on the counter itself: a value corrected by the number of running Serve calls is zero while Serve is still accepting, so Shutdown returns nil before Serve has returned and a connection accepted in that window is served after shutdown 'completed'; a return taken before the loop (no listeners) skips the connections that were handed to ServeConn and whose handlers are still running", blocksString(p, path)...)
 		}
 	}
 	r.Floor("R9", "drain loop anchors (closeIdleConns calls) in ShutdownWithContext", n, 1)
